@@ -88,6 +88,71 @@ def gen_scenarios(tier):
     return scs
 
 
+def worker_cases(tier):
+    rng = random.Random(vlib.seed() * 9001 + 19)
+    cases = [{'ops': [['start', 2], ['start', 1], ['cancel', 1], ['start', 3], ['release', 'ok'], ['release', 'ok']]},
+             {'ops': [['start', 1], ['start', 2], ['release', 'ok']]},
+             {'ops': [['start', 1], ['release', 'fail'], ['start', 2], ['release', 'ok'], ['discard'], ['start', 3], ['release', 'ok']]}]
+    for _ in range(40 if tier == 'quick' else 600):
+        ops, nreq = [], 0
+        for _ in range(rng.randint(3, 9)):
+            c = rng.random()
+            if c < 0.4 or nreq == 0:
+                nreq += 1
+                ops.append(['start', nreq])
+            elif c < 0.6:
+                ops.append(['cancel', rng.randint(1, nreq)])
+            elif c < 0.9:
+                ops.append(['release', rng.choice(['ok', 'ok', 'fail'])])
+            else:
+                ops.append(['discard'])
+        cases.append({'ops': ops})
+    for i, c in enumerate(cases):
+        c['id'] = i + 1
+    return cases
+
+
+def worker_stage(chk, w, wdir, tier, replay):
+    for cfg in ('Worker_fixed.cfg',):
+        r = vlib.tlc(wdir + '/worker', 'Worker', cfg, workers=2, timeout=300)
+        vlib.tlc_must_parse(r, cfg)
+        chk.add_tlc('exhaustive ' + cfg, r)
+        if r.violated or not r.ok:
+            raise Inconclusive('design model %s: %s' % (cfg, r.violated or r.error))
+    if replay:
+        cases = [json.load(open(os.path.join(replay, 'replay.json')))['payload']['wcase']]
+        cases[0]['id'] = 1
+    else:
+        cases = worker_cases(tier)
+    # the worker harness lives in its own work copy: it shares package exec with the other harness files
+    with vlib.WorkCopy('c19w', harness=['worker']) as ww:
+        json.dump(cases, open(ww.out('cases.json'), 'w'))
+        p = ww.gotest('./exec/', 'TestVerifWorker$', env={'VERIF_CASES': ww.out('cases.json')}, timeout=1800)
+        out = ww.out('worker_records.ndjson')
+        if p.returncode != 0 or not os.path.exists(out):
+            raise Inconclusive('worker harness failed:\n' + (p.stdout or '')[-3000:])
+        recs = vlib.read_ndjson(out)
+        v = vlib.judge(chk, wdir, 'workermon', 'WorkerMon', 'WorkerMon.cfg', 'worker_records.ndjson', out, 'worker_verdict.json', nrecs=len(recs))
+    byid = {c['id']: c for c in cases}
+    rb = {r['id']: r for r in recs}
+    chk.cov['worker_histories'] = len(recs)
+    chk.cov['worker_events'] = sum(len(r.get('events', [])) for r in recs)
+    chk.cov['traces_validated_against_impl'] += len(recs)
+    for c in cases:
+        chk.case({'worker_ops': c['ops']}, nontrivial=len(c['ops']) >= 3)
+    chk.sample({'worker_case': cases[0]['ops'], 'events': rb[cases[0]['id']].get('events', [])[:12]})
+    seen = set()
+    for b in v['bad']:
+        if (b['id'], b['what']) in seen:
+            continue
+        seen.add((b['id'], b['what']))
+        c = byid[b['id']]
+        kinds = sorted({o[0] for o in c['ops']})
+        chk.violation({'what': b['what'], 'layer': 'worker', 'needs': ','.join(k for k in kinds if k in ('cancel', 'discard'))},
+                      'worker: %s at event %s of history %s' % (b['what'], b['seq'], json.dumps(c['ops'])),
+                      {'wcase': c, 'events': rb[b['id']].get('events', [])})
+
+
 def run(tier, replay=None):
     chk = vlib.Check('C19', tier)
     chk.assumptions = vlib.TRUSTED
@@ -99,6 +164,9 @@ def run(tier, replay=None):
     spec.loader.exec_module(c12)
     with vlib.WorkCopy('c19', harness=['prog', 'c03']) as w:
         wdir = w.root + '/tlc'
+        if replay and 'wcase' in json.load(open(os.path.join(replay, 'replay.json')))['payload']:
+            worker_stage(chk, w, wdir, tier, replay)
+            return chk.finish()
         # (1) design: two evaluations sharing tasks, exhaustive
         cfgs = [('EvalMC_two_quick.cfg', 600)] if tier == 'quick' else [('EvalMC_small2.cfg', 2400)]
         if not replay:
@@ -186,6 +254,10 @@ def run(tier, replay=None):
                 top = re.findall(r'\n  (\S+)\(', (m.group(1) if m else ''))[:2]
                 chk.violation({'what': 'DataRace', 'at': '/'.join(top)}, 'race detector reported %d data race(s); first at %s' % (races, top),
                               {'excerpt': (m.group(0) if m else '')[:3000]})
+        # (4) the worker's side of a shared task: concurrent Worker.Run requests for one task, cancellations,
+        # failures and Discard, on a real worker (design model Worker.tla, exhaustive; monitor WorkerMon.tla)
+        if not replay:
+            worker_stage(chk, w, wdir, tier, replay)
         for s in scs:
             chk.case({'steps': s['steps'], 'exec': s['exec']}, nontrivial=True)
         for s in scheds:
